@@ -17,7 +17,7 @@ from gen import vocab
 PROP = "C20"
 LEVEL = "exploration"
 HASH_VARIANTS = 1
-RUNS = {"quick": 2500, "thorough": 1500000}
+RUNS = {"quick": 2500, "thorough": 500000}
 WALL_LIMIT = {"quick": 1200, "thorough": 5 * 3600}
 PROBES = ["duration_ends_exactly_on_timepoint", "duration_beyond_last_row", "duration_between_timepoints", "restart_of_open_process",
           "process_left_open", "delay_shifted_onset", "delay_shifted_duration", "delay_creates_new_timepoint", "equal_onset_rows",
